@@ -669,6 +669,26 @@ impl<B: Flav> SliceWorld<B> {
                             Err(e) => verr(&e),
                         }
                     }
+                    "s.bv" => {
+                        // ByteValued::from_slice / from_mut_slice on the bytes of this view: a reference is only
+                        // produced for exactly size_of::<T>() bytes at a suitably aligned address (C01)
+                        let t = kv.s("t");
+                        let (ts, ta) = ty_of(t);
+                        let (off, len) = (kv.us("off").min(plen), kv.us("len"));
+                        let len = len.min(plen - off);
+                        let bytes: &mut [u8] = unsafe { std::slice::from_raw_parts_mut((parent.0 + off) as *mut u8, len) };
+                        let want = len == ts && ts != 0 && (parent.0 + off) % ta == 0; // (a zero-sized Self never yields a reference: align_to has an empty middle)
+                        let (a, b) = with_ty!(t, T => (T::from_slice(bytes).map(|r| r as *const T as usize), T::from_mut_slice(bytes).map(|r| r as *mut T as usize)));
+                        if a.is_some() != want || b.is_some() != want {
+                            rec.fail("C01", "s.bv/acceptance", &format!("{} got={:?}/{:?} want={}", line, a.is_some(), b.is_some(), want));
+                        }
+                        if let Some(p) = a {
+                            if p % ta != 0 || p != parent.0 + off || b != Some(p) {
+                                rec.fail("C01", "s.bv/misaligned-reference", line);
+                            }
+                        }
+                        format!("ok {} off={} len={}", a.is_some(), off, len)
+                    }
                     "s.guard" => {
                         let (g, gm) = (s.ptr_guard(), s.ptr_guard_mut());
                         if g.len() != s.len() || gm.len() != s.len() || g.as_ptr() as usize != parent.0 || gm.as_ptr() as usize != parent.0 {
@@ -1127,8 +1147,13 @@ pub fn run<B: Flav>(rec: &mut Rec, rng: &mut Rng, n_ops: usize, with_streams: bo
                         } else {
                             format!("s.aref s={} off={} t={} ts={} ta={} how=ref", sid, off, t.0, t.1, t.2)
                         }
-                    } else if r < 39 {
+                    } else if r < 38 {
                         format!("s.guard s={}", sid)
+                    } else if r < 39 {
+                        nt = true;
+                        let off = small(rng);
+                        let len = if rng.chance(3, 4) { t.1 as u64 } else { rng.below(20) };
+                        format!("s.bv s={} off={} len={} t={} ts={} ta={}", sid, off, len, t.0, t.1, t.2)
                     } else if r < 62 {
                         // buffer / object writes & reads
                         let addr = small(rng);
